@@ -128,6 +128,7 @@ def build(S, case, default_name=DEFAULT):
     _write(j(proj, "notes.txt"), "notes\n")
     _write(j(proj, "other.py"), "unrelated = 1\n")
     _write(j(elsewhere, "local.py"), "local = 2\n")
+    _write(j(store, "precious", "p.py"), "precious = 3\n")
 
     name, spell, place, inp, pre = case["name"], case["spell"], case["place"], case["inp"], case["pre"]
     N = dict(NAMES, default=default_name)[name]
@@ -162,7 +163,8 @@ def build(S, case, default_name=DEFAULT):
     if inp in ("dir", "two"):
         for rel, text in INPUT_TREE.items():
             _write(j(D, rel), text)
-        for rel, target in (("alias.py", "a.py"), ("pkg/loop", ".."), ("biglink.py", j(area, "big.py"))):
+        big_rel = os.path.relpath(j(area, "big.py"), os.path.realpath(D))
+        for rel, target in (("alias.py", "a.py"), ("pkg/loop", ".."), ("biglink.py", big_rel)):
             os.symlink(target, j(D, rel))
             links.append(j(D, rel))
     if inp in ("file", "two"):
@@ -196,6 +198,11 @@ def build(S, case, default_name=DEFAULT):
         _write(j(T, e_app, "stale.txt"), "left over\n")
         _write(j(T, e_app, "src", "stale.py"), "stale = 1\n")
         _write(j(T, e_app, "frontend", "junk.bin"), "junk\n")
+        # links out of the workspace: a forced clean-up must remove the links, never what they point to
+        e_dir = os.path.realpath(j(T, e_app))
+        for n, target in (("ext_dir", j(store, "precious")), ("ext_file", j(area, "bystander.txt"))):
+            os.symlink(os.path.relpath(target, e_dir), j(e_dir, n))
+            links.append(j(e_dir, n))
     if symlink:
         os.symlink(os.path.relpath(T, os.path.dirname(lexical)), lexical)
         links.append(lexical)
@@ -396,7 +403,7 @@ def short(entry):
     if entry[0] == "f":
         return "file(%d bytes, %s)" % (entry[1], entry[2][:10])
     if entry[0] == "l":
-        return "link->%s" % entry[1]
+        return "link->%s" % re.sub(r"/\S*lianverif-c18-[^/]*", "<sandbox>", entry[1])
     return {"d": "dir", "o": "other", "?": "unreadable"}[entry[0]]
 
 
